@@ -19,6 +19,7 @@ _mut_apply = ns['apply']
 MAXLEN = int(os.environ.get('C07_MAXLEN', '4'))
 FIRST = int(os.environ.get('C07_FIRST', '-1'))
 NCODES = NK + 2 * NS
+ALLOWED = [int(c) for c in os.environ.get('C07_ALLOWED', '').split(',') if c]
 
 
 def mutated_impl(codes, values):
@@ -35,6 +36,8 @@ def first_ok(codes):
 
 
 def in_range(codes):
+    if ALLOWED:
+        return all(c in ALLOWED for c in codes)
     return all(0 <= c < NK for c in codes)
 
 
